@@ -23,7 +23,9 @@ RULE = ("texts: instants 1900-2200 (pools concentrated on month/year ends, 29 Fe
         "two non-ASCII) of sampled valid texts; field corruptions (month 00/13, day 00/32/31-in-30, 29/30 Feb, hour 24, "
         "minute 60, second 60); values: aware datetimes/times with fixed-offset tzinfo (every whole-minute offset, name or "
         "None), sub-ms microseconds 0/499/500/501/999 around second/day/month/year roll-over, naive values, sub-minute "
-        "offsets (impl vs model only), wrong types. Outputs compared as ok(value)/error. A case is non-trivial when the "
+        "offsets (impl vs model only), wrong types; tzinfos with a transition (custom PEP-495 class: 1 h / 30 min / 26 h back, "
+        "1 h forward, name-only change; zoneinfo zones when tzdata is present) at transition +-{1,499,500,501,999} us and "
+        "inside the 500 us window before it, canonicalised with the (offset, name) of the original value. Outputs compared as ok(value)/error. A case is non-trivial when the "
         "implementation returned a value; distinct by (op, required, input).")
 
 TZS = {"EST": -5, "EDT": -4, "CST": -6, "CDT": -5, "MST": -7, "MDT": -6, "PST": -8, "PDT": -7}
@@ -154,6 +156,68 @@ class FixedTz(datetime.tzinfo):
 
     def __repr__(self):
         return f"FixedTz({self._o!r},{self._n!r})"
+
+
+class TransitionTz(datetime.tzinfo):
+    """A zone with one transition at the UTC instant `t_utc` (naive datetime): (offset minutes, name) `before` it and
+    `after` it.  utcoffset/tzname/dst look at the *wall-clock* fields of the datetime they are given, PEP-495 style:
+    wall times that occur twice (offset decreases) or never (offset increases) are resolved by `fold` (0 = before)."""
+
+    def __init__(self, t_utc, before, after):
+        self.t, self.before, self.after = t_utc, before, after
+        w1 = t_utc + datetime.timedelta(minutes=before[0])
+        w2 = t_utc + datetime.timedelta(minutes=after[0])
+        self.lo, self.hi = min(w1, w2), max(w1, w2)
+
+    def _which(self, dt):
+        wall = dt.replace(tzinfo=None)
+        if wall < self.lo:
+            return self.before
+        if wall >= self.hi:
+            return self.after
+        return self.after if dt.fold else self.before
+
+    def utcoffset(self, dt):
+        return None if dt is None else datetime.timedelta(minutes=self._which(dt)[0])
+
+    def tzname(self, dt):
+        return None if dt is None else self._which(dt)[1]
+
+    def dst(self, dt):
+        return None if dt is None else datetime.timedelta(0)
+
+    def spec(self):
+        return {"kind": "transition", "t_utc": list(self.t.timetuple()[:6]) + [self.t.microsecond],
+                "before": list(self.before), "after": list(self.after)}
+
+    def at_utc(self, us_from_t):
+        """the aware datetime `us_from_t` microseconds after (before, if negative) the transition"""
+        side = self.after if us_from_t >= 0 else self.before
+        wall = self.t + datetime.timedelta(microseconds=us_from_t) + datetime.timedelta(minutes=side[0])
+        v = wall.replace(tzinfo=self, fold=1 if us_from_t >= 0 else 0)
+        assert v.utcoffset() == datetime.timedelta(minutes=side[0]) and v.tzname() == side[1], (self, us_from_t)
+        return v
+
+    def __repr__(self):
+        return f"TransitionTz({self.t!r},{self.before!r},{self.after!r})"
+
+
+def tz_spec(tz):
+    """JSON description of a time-dependent tzinfo (for replays), None for the fixed ones"""
+    if isinstance(tz, TransitionTz):
+        return tz.spec()
+    key = getattr(tz, "key", None)
+    if key:
+        return {"kind": "zoneinfo", "key": key}
+    return None
+
+
+def tz_from_spec(sp):
+    if sp["kind"] == "transition":
+        t = sp["t_utc"]
+        return TransitionTz(datetime.datetime(*t), tuple(sp["before"]), tuple(sp["after"]))
+    import zoneinfo
+    return zoneinfo.ZoneInfo(sp["key"])
 
 
 # ---------------------------------------------------------------------------------------------
@@ -436,6 +500,46 @@ def build_value_cases(ctx):
         for us in (0, 999499, 999500, 999999):
             for off in (-720, 0, 840):
                 add("dt.unconv", datetime.datetime(y, mo, d, 23, 59, 59, us, tzinfo=FixedTz(off * 60 * 10 ** 6, None)))
+    # tzinfos whose offset depends on the wall-clock time: values in the microseconds around a transition.
+    # format_datetime must take utcoffset()/tzname() from the ORIGINAL value, not from the value bumped by 500 us
+    # (2021-11-07 01:59:59.9996 EDT is written 20211107020000.000[-4:EDT]).  The model is given the original value's
+    # (offset, name) by codec.canon_val, the oracle the value's true instant.
+    DELTAS = (-1000000, -999, -501, -500, -499, -1, 0, 1, 499, 500, 501, 999, 1000000)
+    zones = []
+    for t_utc, before, after in (
+            (datetime.datetime(2021, 11, 7, 6, 0, 0), (-240, "EDT"), (-300, "EST")),        # clocks back 1 h
+            (datetime.datetime(2021, 3, 14, 7, 0, 0), (-300, "EST"), (-240, "EDT")),        # clocks forward 1 h
+            (datetime.datetime(2024, 2, 29, 23, 30, 0), (570, "ACST"), (540, None)),        # back 30 min, name vanishes
+            (datetime.datetime(2000, 1, 1, 0, 0, 0), (0, "GMT"), (0, "UTC")),               # name change only
+            (datetime.datetime(1999, 12, 31, 12, 0, 0), (840, "+14"), (-720, "-12")),       # date-line switch (back 26 h)
+            (datetime.datetime(2100, 6, 30, 15, 45, 0), (-30, "A"), (30, "B")),             # forward 1 h across zero
+            (datetime.datetime(2100, 6, 30, 15, 45, 0), (30, "B"), (-30, "A"))):            # back 1 h across zero
+        zones.append(TransitionTz(t_utc, before, after))
+    for z in zones:
+        for dlt in DELTAS:
+            add("dt.unconv", z.at_utc(dlt), False)
+        add("dt.conv", z.at_utc(-400))
+        add("tm.unconv", datetime.time(1, 59, 59, 999600, tzinfo=z))      # utcoffset(None) is None: a naive time
+        for _ in range(ctx.budget(6, 40)):
+            add("dt.unconv", z.at_utc(rng.choice((-1, 1)) * rng.randint(0, 10 ** 9) * 1000 + rng.choice(US)))
+            add("dt.unconv", z.at_utc(-rng.randint(1, 500)))                # the window the bump crosses
+    try:
+        import zoneinfo
+        for key, trans in (("America/New_York", ((2021, 11, 7, 6, 0), (2021, 3, 14, 7, 0))),
+                           ("Europe/London", ((2021, 10, 31, 1, 0), (2021, 3, 28, 1, 0))),
+                           ("Australia/Lord_Howe", ((2021, 4, 3, 15, 0), (2021, 10, 2, 15, 30))),
+                           ("Asia/Kolkata", ((2021, 1, 1, 0, 0),))):
+            zi = zoneinfo.ZoneInfo(key)
+            for t in trans:
+                t0 = datetime.datetime(*t, tzinfo=datetime.timezone.utc)
+                for dlt in DELTAS:
+                    add("dt.unconv", (t0 + datetime.timedelta(microseconds=dlt)).astimezone(zi), False)
+                for _ in range(ctx.budget(4, 30)):
+                    add("dt.unconv", (t0 - datetime.timedelta(microseconds=rng.randint(1, 500))).astimezone(zi))
+        ctx.stat("zoneinfo:available")
+    except Exception as ex:        # no zoneinfo / tzdata offline: the custom class above is the portable one
+        ctx.stat("zoneinfo:unavailable")
+        ctx.notes.append(f"zoneinfo zones not exercised: {type(ex).__name__}")
     # None and wrong types
     wrong = [None, "20200101", "120000", "", 5, 0, True, 1.5, decimal.Decimal("20200101"), b"20200101", [2020], (2020, 1, 1),
              datetime.date(2020, 1, 1), datetime.timedelta(1), datetime.timezone.utc,
@@ -582,6 +686,11 @@ def run(ctx):
         r = run_impl(f, v)
         impl, model = _impl_canon(r), _model_canon(rep)
         case = {"op": op, "required": req, "value": repr(v), "canon": codec.text(codec.canon_val(v))}
+        sp = tz_spec(getattr(v, "tzinfo", None))
+        if sp is not None:
+            ctx.stat("value:time-dependent-tzinfo:" + sp["kind"])
+            case["tz"] = sp
+            case["fold"] = v.fold
         ctx.stat(f"value:{op}:{type(v).__name__}")
         ctx.stat(f"impl:{op}:{r[0]}" + (":" + r[1] if r[0] == "err" else ""))
         ctx.compare(op, case, impl, model, nontrivial=(r[0] == "ok" and v is not None))
@@ -708,6 +817,8 @@ def replay(ctx, data):
               "ms | value denotes", value_instant_us(r[1]) if r[0] == "ok" and r[1] is not None else None, "us")
         return
     v = _value_from_canon(case["canon"]) if str(case.get("canon", "")).startswith(("(dt", "(tm")) else None
+    if v is not None and "tz" in case:          # a time-dependent tzinfo: same wall-clock fields, the real zone
+        v = v.replace(tzinfo=tz_from_spec(case["tz"]), fold=case.get("fold", 0))
     if v is None:
         print("replay", case, "(not a datetime/time value; see its repr)")
         return
